@@ -78,7 +78,7 @@ Definition step_P (n : nat) (H : nat -> nat -> nat -> nat) (pre : view) (e : ost
       then forall x, x < n -> w_votes post x = None /\
                               w_prev post x = drop_stale (w_vp pre) h (w_prev pre x)
       else votes_kept n pre post
-  | EditParams _ _ | SetStatus _ _ | Malformed =>
+  | EditParams _ _ _ | SetStatus _ _ | Malformed =>
       votes_kept n pre post /\ feeders_kept n pre post
   end.
 
@@ -172,7 +172,7 @@ Definition step_Pb (n : nat) (H : nat -> nat -> nat -> nat) (pre : view) (e : os
       then below n (fun x => onat_eqb (w_votes post x) None &&
                              oprev_eqb (w_prev post x) (drop_stale (w_vp pre) h (w_prev pre x)))
       else votes_keptb n pre post
-  | EditParams _ _ | SetStatus _ _ | Malformed =>
+  | EditParams _ _ _ | SetStatus _ _ | Malformed =>
       votes_keptb n pre post && feeders_keptb n pre post
   end.
 
@@ -218,7 +218,7 @@ Ltac split_andb :=
 Lemma step_Pb_sound n H pre e : step_Pb n H pre e = true -> step_P n H pre e.
 Proof.
   destruct e as [[[h m] acc] post]. unfold step_Pb, step_P.
-  destruct m as [f v hash hex_ok|f v salt rates tuples parses wl|op d|sd nvp|v st| |]; intro E.
+  destruct m as [f v hash hex_ok|f v salt rates tuples parses wl|op d|sd nvp vd|v st| |]; intro E.
   - (* Prevote *)
     split_andb. split; [|split; [|split]].
     + intro A. subst acc. split_andb.
